@@ -42,6 +42,8 @@ let frame_str (fr : frame) : string =
   | MetaDel (delid, rs) -> "del delid=" ^ string_of_z delid ^ " ids=" ^ ids_str rs
   | Info (what, from, seq) -> "info what=" ^ note_name what ^ " from=" ^ string_of_n from ^ " seq=" ^ string_of_z seq
   | Evicted unsub -> "ctrl 205 unsub=" ^ (if unsub then "1" else "0")
+  | Push (seq, from, rcpt) -> "push seq=" ^ string_of_z seq ^ " from=" ^ string_of_n from ^ " to=" ^
+      String.concat "," (List.map string_of_n rcpt)
 
 let b2s b = if b then "1" else "0"
 let store_str (s : store) : string list =
